@@ -39,4 +39,13 @@ JOBS = {
         wall_quick=50, wall_thorough=900,
         assumptions=["object sizes are multiples of 8 from {8,16,24,40,64,512,2048,4096,8192}; at most 40000 live objects"],
     ),
+    "C03": dict(
+        level="exploration",
+        rule="seed -> plan of start/resume/transfer/yield/return/exit/stop/restart/recurse/setcsr steps executed by whichever coroutine is current, on the real cmi_coroutine API and asm context switch, vs model of status/current/caller/parent; "
+             "all six callee-saved registers live with unique values across every switch (asm shim), MXCSR and stack sentinels re-checked on every switch-in; distinct = distinct trace hashes; non-trivial = at least 4 context switches",
+        jobs=[J("coro", "rel", 150000, 4000000), J("coro", "san", 20000, 400000)],
+        wall_quick=50, wall_thorough=900, crash_is_violation=True,
+        assumptions=["decided dynamically (the disassembly is not parsed); x87 control word and AVX-512 mask registers are not observed",
+                     "a crash of a coroutine-engine run counts as a C03 violation (a corrupted context usually shows as a wild jump)"],
+    ),
 }
